@@ -389,12 +389,21 @@ func argsNum(v cadence.Value) (string, string, bool) {
 
 type argsOOF struct{}
 
+// a composite whose type ID has a string / identifier / … location: the location resolver of the
+// test host (test_utils/runtime_utils.MultipleIdentifierLocationResolver) asserts an address
+// location and panics otherwise — a limit of the host, not of the importer; such arguments are not run
+type argsNonAddress struct{}
+
 // argsSx prints a value; typed = exported value (arrays / dictionaries carry their static type).
 func argsSx(v cadence.Value, typed bool) (s string) {
 	defer func() {
 		if r := recover(); r != nil {
 			if _, ok := r.(argsOOF); ok {
 				s = "!oof"
+				return
+			}
+			if _, ok := r.(argsNonAddress); ok {
+				s = "!oof-location"
 				return
 			}
 			panic(r)
@@ -471,7 +480,10 @@ func argsSxRec(v cadence.Value, typed bool) string {
 		ct := comp.Type().(cadence.CompositeType)
 		id := ct.ID()
 		if !strings.HasPrefix(id, "A.") {
-			panic(argsOOF{}) // built-in composites (PublicKey, …) and non-address locations
+			if strings.Contains(id, ".") {
+				panic(argsNonAddress{})
+			}
+			panic(argsOOF{}) // built-in composites (PublicKey, …)
 		}
 		fields := argsCompositeTypeFields(ct)
 		values := argsCompositeFieldValues(comp)
@@ -1212,6 +1224,9 @@ func execArgs(op []string) string {
 		sx := argsDecodeSx([]byte(op[4]))
 		if sx != op[5] {
 			return "sx-mismatch"
+		}
+		if sx == "!oof-location" {
+			return "skip-non-address-location"
 		}
 		t := argsParseTy(op[3])
 		ts := t.cadence()
